@@ -123,7 +123,14 @@ func VPH_C11_newobjects() {
 	switch procSel {
 	case 0:
 		proc = NFSPROC3_CREATE
-		b.fh(hd).str("new").u32(uint32(vpChoose("how", 0, 1))).sattr(s)
+		if how := vpChoose("how", 0, 2); how == 2 {
+			// EXCLUSIVE: a verifier instead of attributes - nothing names an owner, so the caller is it
+			b.fh(hd).str("new").u32(2).raw(vpBytes("verf", 8))
+			s.setUID, s.setGID = false, false
+			vpReach("create-exclusive")
+		} else {
+			b.fh(hd).str("new").u32(uint32(how)).sattr(s)
+		}
 		vpReach("create")
 	case 1:
 		proc = NFSPROC3_MKDIR
